@@ -258,7 +258,9 @@ where
                 Ok(M::bind(|| out))
             } else {
                 let err_span = inp.span_since(&before);
-                inp.add_alt([DefaultExpected::SomethingElse], None, err_span);
+                // The rejected output starts at the first token of the span, so that is what was found
+                let found = inp.peek_maybe_at(&before);
+                inp.add_alt([DefaultExpected::SomethingElse], found, err_span);
                 Err(())
             }
         })
